@@ -102,6 +102,9 @@ func readOnlyMethods(c refl.Cfg) []string {
 			out = append(out, m)
 		}
 	}
+	if c.Elem != "" {
+		return out // GetSortedValues needs an ordered element type
+	}
 	return append(out, sortedValues, sortedValuesFunc)
 }
 
@@ -173,8 +176,15 @@ func checkPure(c Case) (pbt.Info, error) {
 	return info, nil
 }
 
+// elemFamily is the element family of the targets being generated ("" = int; "any"
+// = an interface element type, for code that inspects the element type at run time).
+var elemFamily = ""
+
 func genState(t *rapid.T, kind string) Case {
 	c := Case{Cfg: refl.GenCfg(t, kind)}
+	if elemFamily != "" {
+		c.Cfg = refl.GenCfgElem(t, kind, elemFamily)
+	}
 	chunks := 2
 	if rapid.IntRange(0, 7).Draw(t, "big-build") == 0 {
 		chunks = 9 // dozens to hundreds of elements
@@ -305,6 +315,12 @@ func TestConcurrentReaders(t *testing.T) {
 	for _, kind := range refl.Kinds {
 		pbt.Run(t, pbt.Target[Case]{Name: "concurrent/" + kind, Checks: 70, Gen: genConcurrent(kind), Check: checkConcurrent})
 	}
+	// T = any: nil, pointers, errors and mixed dynamic types as elements
+	elemFamily = "any"
+	defer func() { elemFamily = "" }()
+	for _, kind := range refl.Kinds {
+		pbt.Run(t, pbt.Target[Case]{Name: "concurrent/" + kind + "/any", Checks: 20, Gen: genConcurrent(kind), Check: checkConcurrent})
+	}
 }
 
 // TestPurity runs after the concurrent test (tests run in source order): state
@@ -312,5 +328,10 @@ func TestConcurrentReaders(t *testing.T) {
 func TestPurity(t *testing.T) {
 	for _, kind := range refl.Kinds {
 		pbt.Run(t, pbt.Target[Case]{Name: "pure/" + kind, Checks: 200, Gen: genPure(kind), Check: checkPure})
+	}
+	elemFamily = "any"
+	defer func() { elemFamily = "" }()
+	for _, kind := range refl.Kinds {
+		pbt.Run(t, pbt.Target[Case]{Name: "pure/" + kind + "/any", Checks: 40, Gen: genPure(kind), Check: checkPure})
 	}
 }
